@@ -153,6 +153,9 @@ def match_text(ex, m, g, st):
     a = it.attrs
     s, e, part = match_span(ex, m, g, st)
     txt = z3.SubString(a["data"], s, e - s)
+    if not getattr(st, "in_binder", 0):
+        # the group text is the slice data[s:e]: link it with the SLICE symbol quantified clauses use
+        st.fact(z3.Implies(z3.And(0 <= s, s <= e, e <= z3.Length(a["data"])), uf(ex, "SLICE", S, I, I, S)(a["data"], s, e) == txt))
     if a["pat"] is None:
         st.fact(z3.Length(txt) == e - s)
         return txt, part
